@@ -498,6 +498,278 @@ impl<T> SchemeMatcher<T> {
 }
 //@@ unrename HostMatcher
 
+// ================================================================ host layer
+// SHIM: marker strings are opaque except for their regex text; StaticOrDynamic is the real enum
+pub struct MarkerString { pub regex: String, pub vf_rest: u8 }
+//@@ item src/marker/mod.rs :: enum StaticOrDynamic
+pub enum HostKey { NoHost, Static(Seq<char>), Dynamic(Seq<char>) }
+pub uninterp spec fn rhost<T>(r: Route<T>) -> HostKey;
+pub open spec fn rhost_of<T>(x: RouteRef<T>) -> HostKey { rhost(*x) }
+pub open spec fn host_key(o: Option<&StaticOrDynamic>) -> HostKey {
+    match o { None => HostKey::NoHost, Some(StaticOrDynamic::Static(s)) => HostKey::Static(s@), Some(StaticOrDynamic::Dynamic(m)) => HostKey::Dynamic(m.regex@) }
+}
+impl<T> Route<T> {
+    #[verifier::external_body] pub fn host(&self) -> (r: Option<&StaticOrDynamic>) ensures host_key(r) == rhost(*self) { unimplemented!() }
+}
+// SHIM of the regex tree keyed by unique patterns (unit `tree` verifies the real one against its content laws; here: the induced
+// pattern -> value map). ASSUMED contracts, in the shape of HashMap's.
+#[verifier::external_body] #[verifier::accept_recursive_types(V)] pub struct UniqueRegexTreeMap<V> { h: std::marker::PhantomData<V> }
+impl<V> UniqueRegexTreeMap<V> {
+    pub uninterp spec fn tmap(&self) -> Map<Seq<char>, V>;
+    #[verifier::external_body]
+    pub fn new(ignore_case: bool) -> (r: Self) ensures r.tmap() == Map::<Seq<char>, V>::empty() { unimplemented!() }
+    #[verifier::external_body]
+    pub fn get_mut(&mut self, regex: &str) -> (r: Option<&mut V>)
+        ensures match r {
+            Some(v) => old(self).tmap().contains_key(regex@) && *v == old(self).tmap()[regex@] && final(self).tmap() == old(self).tmap().insert(regex@, *final(v)),
+            None => !old(self).tmap().contains_key(regex@) && final(self).tmap() == old(self).tmap(),
+        },
+    { unimplemented!() }
+    #[verifier::external_body]
+    pub fn insert(&mut self, regex: &str, item: V) ensures final(self).tmap() == old(self).tmap().insert(regex@, item) { unimplemented!() }
+    #[verifier::external_body]
+    pub fn retain<F: Fn(&str, &mut V) -> bool>(&mut self, f: &F)
+        requires forall|k: &str, v: &mut V| old(self).tmap().contains_key(k@) && *v == old(self).tmap()[k@] ==> #[trigger] f.requires((k, v)),
+        ensures
+            forall|p: Seq<char>| #[trigger] final(self).tmap().contains_key(p) ==> old(self).tmap().contains_key(p) && exists|k: &str, v: &mut V| k@ == p && *v == old(self).tmap()[p] && *final(v) == final(self).tmap()[p] && #[trigger] f.ensures((k, v), true),
+            forall|p: Seq<char>| old(self).tmap().contains_key(p) && !#[trigger] final(self).tmap().contains_key(p) ==> exists|k: &str, v: &mut V| k@ == p && *v == old(self).tmap()[p] && #[trigger] f.ensures((k, v), false),
+    { unimplemented!() }
+    #[verifier::external_body]
+    pub fn is_empty(&self) -> (r: bool) ensures r == (self.tmap().len() == 0) { unimplemented!() }
+}
+// R8 outline, ASSUMED contract (trusted, listed): the three statements
+//     let removed_in_regex = Cell::new(None);
+//     self.regex_tree_rule.retain(&|_, matcher| { if let Some(value) = matcher.remove(id) { removed_in_regex.set(Some(value)); } !matcher.is_empty() });
+//     if removed.is_none() { removed = removed_in_regex.into_inner(); }
+// carry the removed route out of an Fn closure through a std::cell::Cell (interior mutability, outside Verus). Summary, same shape as
+// outl_retain_remove: remove(id) is applied to every bucket of the regex tree, only a bucket that is empty afterwards is dropped, and if
+// `removed` was still None it receives the route returned by one of these calls, if any returned one.
+// (Before the fix of F6 this closure discarded the result; it was then verified in place and failed exactly this summary's last clause.)
+#[verifier::external_body]
+pub fn outl_tree_retain_remove<T>(t: &mut UniqueRegexTreeMap<Sub<T>>, id: &str, removed: &mut Option<RouteRef<T>>)
+    requires map_wf(old(t).tmap()),
+    ensures entries_removed(old(t).tmap(), final(t).tmap(), id@),
+        *old(removed) is Some ==> *final(removed) == *old(removed),
+        *old(removed) is None ==> (*final(removed) matches Some(x) ==> rid(*x) == id@ && map_holds(old(t).tmap(), x)) && (*final(removed) is None ==> !map_holds_id(old(t).tmap(), id@)),
+{
+    /* verbatim: let removed_in_regex = Cell::new(None); self.regex_tree_rule.retain(&|_, matcher| { if let Some(value) = matcher.remove(id) { removed_in_regex.set(Some(value)); } !matcher.is_empty() }); if removed.is_none() { removed = removed_in_regex.into_inner(); } */
+    unimplemented!()
+}
+//@@ rename IpMatcher Sub
+//@@ item src/router/request_matcher/host.rs :: struct HostMatcher
+pub open spec fn hst_kf<T>() -> spec_fn(String, RouteRef<T>) -> bool { |k: String, x: RouteRef<T>| rhost(*x) == HostKey::Static(k@) }
+pub open spec fn hdy_kf<T>() -> spec_fn(Seq<char>, RouteRef<T>) -> bool { |p: Seq<char>, x: RouteRef<T>| rhost(*x) == HostKey::Dynamic(p) }
+pub open spec fn hst_any_ok<T>(x: RouteRef<T>) -> bool { rhost(*x) is NoHost || rhost(*x) == HostKey::Static(Seq::<char>::empty()) }
+impl<T> HostMatcher<T> {
+    pub open spec fn sholds(&self, x: RouteRef<T>) -> bool { self.any_host.holds(x) || map_holds(self.static_hosts@, x) || map_holds(self.regex_tree_rule.tmap(), x) }
+    pub open spec fn swf(&self) -> bool {
+        &&& self.any_host.wf() && map_wf(self.static_hosts@) && map_wf(self.regex_tree_rule.tmap())
+        &&& forall|k: String| #[trigger] self.static_hosts@.contains_key(k) ==> k@.len() > 0
+        &&& self.count == self.any_host.cnt() + msum(self.static_hosts@, cnt_of::<T, Sub<T>>()) + msum(self.regex_tree_rule.tmap(), cnt_of::<T, Sub<T>>())
+        &&& forall|x: RouteRef<T>, y: RouteRef<T>| #[trigger] self.sholds(x) && #[trigger] self.sholds(y) && rid(*x) == rid(*y) ==> x == y
+        // bucket-key consistency
+        &&& map_keyed(self.static_hosts@, hst_kf::<T>()) && map_keyed(self.regex_tree_rule.tmap(), hdy_kf::<T>())
+        &&& forall|x: RouteRef<T>| #[trigger] self.any_host.holds(x) ==> hst_any_ok(x)
+    }
+}
+impl<T> Store<T> for HostMatcher<T> {
+    open spec fn holds(&self, x: RouteRef<T>) -> bool { self.sholds(x) }
+    open spec fn cnt(&self) -> nat { self.count as nat }
+    open spec fn wf(&self) -> bool { self.swf() }
+}
+pub proof fn lemma_host_uniq_bridge<T>(n: HostMatcher<T>)
+    requires uniq(n),
+    ensures forall|x: RouteRef<T>, y: RouteRef<T>| #[trigger] n.sholds(x) && #[trigger] n.sholds(y) && rid(*x) == rid(*y) ==> x == y,
+{
+    assert forall|x: RouteRef<T>, y: RouteRef<T>| #[trigger] n.sholds(x) && #[trigger] n.sholds(y) && rid(*x) == rid(*y) implies x == y by { assert(n.holds(x) && n.holds(y)); }
+}
+pub proof fn lemma_host_map_uniq<T>(s: HostMatcher<T>)
+    requires s.wf(),
+    ensures map_uniq(s.static_hosts@), map_uniq(s.regex_tree_rule.tmap()),
+        // a route with a given id lives in at most one of the three containers
+        forall|x: RouteRef<T>, y: RouteRef<T>| rid(*x) == rid(*y) && #[trigger] map_holds(s.static_hosts@, x) ==> !#[trigger] map_holds(s.regex_tree_rule.tmap(), y),
+        forall|x: RouteRef<T>, y: RouteRef<T>| rid(*x) == rid(*y) && #[trigger] s.any_host.holds(x) ==> !#[trigger] map_holds(s.static_hosts@, y) && !map_holds(s.regex_tree_rule.tmap(), y),
+{
+    axiom_string_ext();
+    let m = s.static_hosts@; let t = s.regex_tree_rule.tmap();
+    assert forall|k1: String, k2: String, x: RouteRef<T>, y: RouteRef<T>| m.contains_key(k1) && m.contains_key(k2) && #[trigger] m[k1].holds(x) && #[trigger] m[k2].holds(y) && rid(*x) == rid(*y) implies x == y && k1 == k2 by {
+        assert(map_holds(m, x) && map_holds(m, y)); assert(s.sholds(x) && s.sholds(y)); assert(hst_kf::<T>()(k1, x) && hst_kf::<T>()(k2, y));
+    }
+    assert forall|k1: Seq<char>, k2: Seq<char>, x: RouteRef<T>, y: RouteRef<T>| t.contains_key(k1) && t.contains_key(k2) && #[trigger] t[k1].holds(x) && #[trigger] t[k2].holds(y) && rid(*x) == rid(*y) implies x == y && k1 == k2 by {
+        assert(map_holds(t, x) && map_holds(t, y)); assert(s.sholds(x) && s.sholds(y)); assert(hdy_kf::<T>()(k1, x) && hdy_kf::<T>()(k2, y));
+    }
+    assert forall|x: RouteRef<T>, y: RouteRef<T>| rid(*x) == rid(*y) && #[trigger] map_holds(m, x) implies !#[trigger] map_holds(t, y) by {
+        if map_holds(t, y) { assert(s.sholds(x) && s.sholds(y)); let k = choose|k: String| m.contains_key(k) && #[trigger] m[k].holds(x); let p = choose|p: Seq<char>| t.contains_key(p) && #[trigger] t[p].holds(y); assert(hst_kf::<T>()(k, x) && hdy_kf::<T>()(p, y)); }
+    }
+    assert forall|x: RouteRef<T>, y: RouteRef<T>| rid(*x) == rid(*y) && #[trigger] s.any_host.holds(x) implies !#[trigger] map_holds(m, y) && !map_holds(t, y) by {
+        assert(hst_any_ok(x));
+        if map_holds(m, y) { assert(s.sholds(x) && s.sholds(y)); let k = choose|k: String| m.contains_key(k) && #[trigger] m[k].holds(y); assert(hst_kf::<T>()(k, y)); assert(k@.len() > 0); }
+        if map_holds(t, y) { assert(s.sholds(x) && s.sholds(y)); let p = choose|p: Seq<char>| t.contains_key(p) && #[trigger] t[p].holds(y); assert(hdy_kf::<T>()(p, y)); }
+    }
+}
+pub proof fn lemma_host_inserted_any<T>(o: HostMatcher<T>, n: HostMatcher<T>, rt: RouteRef<T>)
+    requires o.wf(), forall|x: RouteRef<T>| o.holds(x) ==> rid(*x) != rid(*rt), n.static_hosts@ == o.static_hosts@, n.regex_tree_rule.tmap() == o.regex_tree_rule.tmap(),
+        inserted_rel(o.any_host, n.any_host, rt), n.count == o.count + 1, hst_any_ok(rt),
+    ensures inserted_rel(o, n, rt),
+{
+    assert forall|x: RouteRef<T>| #![trigger n.holds(x)] #![trigger o.holds(x)] n.holds(x) <==> o.holds(x) || x == rt by {}
+    lemma_uniq_inserted(o, n, rt); lemma_host_uniq_bridge(n);
+    assert forall|x: RouteRef<T>| #[trigger] n.any_host.holds(x) implies hst_any_ok(x) by { if x != rt { assert(o.any_host.holds(x)); } }
+}
+pub proof fn lemma_host_inserted_static<T>(o: HostMatcher<T>, n: HostMatcher<T>, rt: RouteRef<T>, key: String)
+    requires o.wf(), forall|x: RouteRef<T>| o.holds(x) ==> rid(*x) != rid(*rt), n.any_host == o.any_host, n.regex_tree_rule.tmap() == o.regex_tree_rule.tmap(), n.count == o.count + 1,
+        key@.len() > 0, rhost(*rt) == HostKey::Static(key@),
+        n.static_hosts@.contains_key(key), n.static_hosts@ == o.static_hosts@.insert(key, n.static_hosts@[key]), n.static_hosts@[key].wf(),
+        forall|x: RouteRef<T>| #![trigger n.static_hosts@[key].holds(x)] n.static_hosts@[key].holds(x) <==> (o.static_hosts@.contains_key(key) && o.static_hosts@[key].holds(x)) || x == rt,
+        n.static_hosts@[key].cnt() == (if o.static_hosts@.contains_key(key) { o.static_hosts@[key].cnt() } else { 0 }) + 1,
+    ensures inserted_rel(o, n, rt),
+{
+    assert(hst_kf::<T>()(key, rt));
+    lemma_map_inserted(o.static_hosts@, n.static_hosts@, key, rt, hst_kf::<T>());
+    assert forall|x: RouteRef<T>| #![trigger n.holds(x)] #![trigger o.holds(x)] n.holds(x) <==> o.holds(x) || x == rt by {}
+    lemma_uniq_inserted(o, n, rt); lemma_host_uniq_bridge(n);
+    assert forall|k: String| #[trigger] n.static_hosts@.contains_key(k) implies k@.len() > 0 by { if k != key { assert(o.static_hosts@.contains_key(k)); } }
+}
+pub proof fn lemma_host_inserted_dyn<T>(o: HostMatcher<T>, n: HostMatcher<T>, rt: RouteRef<T>, p: Seq<char>)
+    requires o.wf(), forall|x: RouteRef<T>| o.holds(x) ==> rid(*x) != rid(*rt), n.any_host == o.any_host, n.static_hosts@ == o.static_hosts@, n.count == o.count + 1,
+        rhost(*rt) == HostKey::Dynamic(p),
+        n.regex_tree_rule.tmap().contains_key(p), n.regex_tree_rule.tmap() == o.regex_tree_rule.tmap().insert(p, n.regex_tree_rule.tmap()[p]), n.regex_tree_rule.tmap()[p].wf(),
+        forall|x: RouteRef<T>| #![trigger n.regex_tree_rule.tmap()[p].holds(x)] n.regex_tree_rule.tmap()[p].holds(x) <==> (o.regex_tree_rule.tmap().contains_key(p) && o.regex_tree_rule.tmap()[p].holds(x)) || x == rt,
+        n.regex_tree_rule.tmap()[p].cnt() == (if o.regex_tree_rule.tmap().contains_key(p) { o.regex_tree_rule.tmap()[p].cnt() } else { 0 }) + 1,
+    ensures inserted_rel(o, n, rt),
+{
+    assert(hdy_kf::<T>()(p, rt));
+    lemma_map_inserted(o.regex_tree_rule.tmap(), n.regex_tree_rule.tmap(), p, rt, hdy_kf::<T>());
+    assert forall|x: RouteRef<T>| #![trigger n.holds(x)] #![trigger o.holds(x)] n.holds(x) <==> o.holds(x) || x == rt by {}
+    lemma_uniq_inserted(o, n, rt); lemma_host_uniq_bridge(n);
+}
+pub proof fn lemma_host_removed_any<T>(o: HostMatcher<T>, n: HostMatcher<T>, id: Seq<char>, x0: RouteRef<T>)
+    requires o.wf(), n.static_hosts@ == o.static_hosts@, n.regex_tree_rule.tmap() == o.regex_tree_rule.tmap(), removed_rel(o.any_host, n.any_host, id, Some(x0)), n.count == o.count - 1, o.count >= 1,
+    ensures removed_rel(o, n, id, Some(x0)),
+{
+    assert(o.holds(x0));
+    assert forall|y: RouteRef<T>| #![trigger n.holds(y)] #![trigger o.holds(y)] n.holds(y) <==> o.holds(y) && rid(*y) != id by { if o.holds(y) && rid(*y) == id { assert(y == x0); } }
+    lemma_uniq_subset(o, n); lemma_host_uniq_bridge(n);
+    assert forall|x: RouteRef<T>| #[trigger] n.any_host.holds(x) implies hst_any_ok(x) by { assert(o.any_host.holds(x)); }
+}
+// remove(id) went through the static buckets and the regex buckets; r is what the function returns
+pub proof fn lemma_host_removed<T>(o: HostMatcher<T>, n: HostMatcher<T>, id: Seq<char>, r: Option<RouteRef<T>>)
+    requires o.wf(), removed_rel(o.any_host, n.any_host, id, None::<RouteRef<T>>),
+        entries_removed(o.static_hosts@, n.static_hosts@, id), entries_removed(o.regex_tree_rule.tmap(), n.regex_tree_rule.tmap(), id),
+        r matches Some(x) ==> rid(*x) == id && (map_holds(o.static_hosts@, x) || map_holds(o.regex_tree_rule.tmap(), x)),
+        r is None ==> !map_holds_id(o.static_hosts@, id) && !map_holds_id(o.regex_tree_rule.tmap(), id),
+        n.count + (if r is Some { 1int } else { 0int }) == o.count,
+    ensures removed_rel(o, n, id, r),
+{
+    let m0 = o.static_hosts@; let t0 = o.regex_tree_rule.tmap();
+    lemma_host_map_uniq(o); lemma_sub_empty::<T>();
+    lemma_map_removed(m0, n.static_hosts@, id, hst_kf::<T>());
+    lemma_map_removed(t0, n.regex_tree_rule.tmap(), id, hdy_kf::<T>());
+    // at most one of the two maps holds the id
+    if map_holds_id(m0, id) && map_holds_id(t0, id) {
+        let (k, x) = choose|k: String, y: RouteRef<T>| m0.contains_key(k) && #[trigger] m0[k].holds(y) && rid(*y) == id;
+        let (p, y) = choose|p: Seq<char>, y: RouteRef<T>| t0.contains_key(p) && #[trigger] t0[p].holds(y) && rid(*y) == id;
+        assert(map_holds(m0, x) && map_holds(t0, y));
+    }
+    if r is Some {
+        let x = r.unwrap(); assert(o.holds(x));
+        if map_holds(m0, x) { let k = choose|k: String| m0.contains_key(k) && #[trigger] m0[k].holds(x); assert(map_holds_id(m0, id)); }
+        else { let p = choose|p: Seq<char>| t0.contains_key(p) && #[trigger] t0[p].holds(x); assert(map_holds_id(t0, id)); }
+    }
+    assert forall|y: RouteRef<T>| #![trigger n.holds(y)] #![trigger o.holds(y)] n.holds(y) <==> o.holds(y) && rid(*y) != id by {
+        if o.any_host.holds(y) { assert(holds_id(o.any_host, id) || rid(*y) != id); }
+    }
+    if r is None {
+        assert forall|y: RouteRef<T>| #[trigger] o.holds(y) implies rid(*y) != id by {
+            if o.any_host.holds(y) { assert(holds_id(o.any_host, id) || rid(*y) != id); }
+            if map_holds(m0, y) { let k = choose|k: String| m0.contains_key(k) && #[trigger] m0[k].holds(y); assert(map_holds_id(m0, id) || rid(*y) != id); }
+            if map_holds(t0, y) { let p = choose|p: Seq<char>| t0.contains_key(p) && #[trigger] t0[p].holds(y); assert(map_holds_id(t0, id) || rid(*y) != id); }
+        }
+    }
+    lemma_uniq_subset(o, n); lemma_host_uniq_bridge(n);
+    assert forall|k: String| #[trigger] n.static_hosts@.contains_key(k) implies k@.len() > 0 by { assert(o.static_hosts@.contains_key(k)); }
+    assert forall|x: RouteRef<T>| #[trigger] n.any_host.holds(x) implies hst_any_ok(x) by { assert(o.any_host.holds(x)); }
+}
+pub proof fn lemma_host_batched<T>(o: HostMatcher<T>, n: HostMatcher<T>, ids: Set<String>)
+    requires o.wf(), batched_rel(o.any_host, n.any_host, ids), entries_batched(o.static_hosts@, n.static_hosts@, ids), entries_batched(o.regex_tree_rule.tmap(), n.regex_tree_rule.tmap(), ids), n.count == o.count,
+    ensures batched_rel(o, n, ids),
+{
+    lemma_sub_empty::<T>();
+    lemma_map_batched(o.static_hosts@, n.static_hosts@, ids, hst_kf::<T>());
+    lemma_map_batched(o.regex_tree_rule.tmap(), n.regex_tree_rule.tmap(), ids, hdy_kf::<T>());
+    assert forall|y: RouteRef<T>| #![trigger n.holds(y)] #![trigger o.holds(y)] n.holds(y) <==> o.holds(y) && !ids_has(ids, rid(*y)) by {}
+    lemma_uniq_subset(o, n); lemma_host_uniq_bridge(n);
+    assert forall|k: String| #[trigger] n.static_hosts@.contains_key(k) implies k@.len() > 0 by { assert(o.static_hosts@.contains_key(k)); }
+    assert forall|x: RouteRef<T>| #[trigger] n.any_host.holds(x) implies hst_any_ok(x) by { assert(o.any_host.holds(x)); }
+}
+impl<T> HostMatcher<T> {
+    //@@ fn src/router/request_matcher/host.rs :: impl <T>HostMatcher<T> / fn new -> r
+    //@| ensures r.wf(), r.cnt() == 0, forall|x: RouteRef<T>| !r.holds(x),
+    //@| entry broadcast use group_hash_axioms; broadcast use axiom_string_key_model;
+
+    //@@ fn src/router/request_matcher/host.rs :: impl <T>HostMatcher<T> / fn insert
+    //@| requires old(self).wf(), old(self).cnt() < usize::MAX, forall|x: RouteRef<T>| old(self).holds(x) ==> rid(*x) != rid(*route),
+    //@| ensures inserted_rel(*old(self), *final(self), route),
+    //@| entry broadcast use group_hash_axioms; broadcast use axiom_string_key_model; broadcast use axiom_borrow_str_contains; broadcast use axiom_borrow_str_maps; broadcast use axiom_borrow_str_upd; broadcast use axiom_borrow_string_upd; broadcast use axiom_arc_cloned;
+    //@|     let ghost m0 = self.static_hosts@; let ghost t0 = self.regex_tree_rule.tmap(); let ghost f = cnt_of::<T, Sub<T>>(); let ghost rt = route; let ghost hk = rhost_of(rt);
+    //@|     proof { axiom_string_ext(); lemma_sub_wf(self.any_host); lit_empty();
+    //@|         match hk { HostKey::Dynamic(p) => { if t0.contains_key(p) { lemma_msum_remove(t0, f, p); lemma_sub_wf(t0[p]); assert forall|x: RouteRef<T>| t0[p].holds(x) implies rid(*x) != rid(*route) by { assert(map_holds(t0, x)); assert(old(self).holds(x)); } } }, _ => {} } }
+    //@| exit proof {
+    //@|     if hk is NoHost { lemma_host_inserted_any(*old(self), *self, rt); }
+    //@|     match hk { HostKey::Dynamic(p) => { lemma_host_inserted_dyn(*old(self), *self, rt, p); }, _ => {} }
+    //@| }
+    //@| before `return;`: proof { assert(static_host@ =~= Seq::<char>::empty()); lemma_host_inserted_any(*old(self), *self, rt); }
+    //@| before `self.static_hosts.get_mut(static_host).unwrap().insert(route.clone());`: let ghost m1 = self.static_hosts@;
+    //@|     proof {
+    //@|         let key = *static_host;
+    //@|         assert(m1.contains_key(key) && m1[key].wf()); lemma_sub_wf(m1[key]);
+    //@|         if m0.contains_key(key) { assert(m1 == m0); lemma_msum_remove(m0, f, key); assert forall|x: RouteRef<T>| m1[key].holds(x) implies rid(*x) != rid(*route) by { assert(map_holds(m0, x)); assert(old(self).holds(x)); } }
+    //@|         else { assert(m1 == m0.insert(key, m1[key])); }
+    //@|     }
+    //@| after `self.static_hosts.get_mut(static_host).unwrap().insert(route.clone());`: proof {
+    //@|     let key = *static_host;
+    //@|     assert(self.static_hosts@ == m1.insert(key, self.static_hosts@[key]));
+    //@|     assert(self.static_hosts@ =~= m0.insert(key, self.static_hosts@[key]));
+    //@|     lemma_host_inserted_static(*old(self), *self, rt, key);
+    //@| }
+
+    //@@ fn src/router/request_matcher/host.rs :: impl <T>HostMatcher<T> / fn remove -> r
+    //@| requires old(self).wf(),
+    //@| ensures removed_rel(*old(self), *final(self), id@, r),
+    //@| outline `self.static_hosts.retain(|_, matcher| { if let Some(value) = matcher.remove(id) { removed = Some(value); } !matcher.is_empty() });` => `outl_retain_remove(&mut self.static_hosts, id, &mut removed);`
+    //@| outline `let removed_in_regex = Cell::new(None); self.regex_tree_rule.retain(&|_, matcher| { if let Some(value) = matcher.remove(id) { removed_in_regex.set(Some(value)); } !matcher.is_empty() }); if removed.is_none() { removed = removed_in_regex.into_inner(); }` => `outl_tree_retain_remove(&mut self.regex_tree_rule, id, &mut removed);`
+    //@| closure `|_, matcher|`#1 => `|_k: &str, matcher: &mut Sub<T>| -> (b: bool) requires old(matcher).wf() ensures removed_rel2(*old(matcher), *final(matcher), id@), !b ==> final(matcher).cnt() == 0`
+    //@| entry broadcast use group_hash_axioms; broadcast use axiom_string_key_model;
+    //@|     proof { axiom_string_ext(); }
+    //@| before `return removed;`: proof { lemma_host_removed_any(*old(self), *self, id@, removed.unwrap()); }
+    //@| before `if removed.is_some() {`#1: proof {
+    //@|     let m0 = old(self).static_hosts@; let t0 = old(self).regex_tree_rule.tmap();
+    //@|     assert(entries_removed(t0, self.regex_tree_rule.tmap(), id@));
+    //@|     lemma_host_map_uniq(*old(self)); lemma_sub_empty::<T>();
+    //@|     lemma_map_removed(m0, self.static_hosts@, id@, hst_kf::<T>());
+    //@|     lemma_map_removed(t0, self.regex_tree_rule.tmap(), id@, hdy_kf::<T>());
+    //@|     if removed is Some { let x = removed.unwrap();
+    //@|         if map_holds(m0, x) { let k = choose|k: String| m0.contains_key(k) && #[trigger] m0[k].holds(x); assert(map_holds_id(m0, id@)); }
+    //@|         else { let p = choose|p: Seq<char>| t0.contains_key(p) && #[trigger] t0[p].holds(x); assert(map_holds_id(t0, id@)); } }
+    //@| }
+    //@| exit proof { lemma_host_removed(*old(self), *self, id@, removed); }
+
+    //@@ fn src/router/request_matcher/host.rs :: impl <T>HostMatcher<T> / fn batch_remove -> r
+    //@| requires old(self).wf(),
+    //@| ensures batched_rel(*old(self), *final(self), ids@),
+    //@| closure `|_, matcher|`#0 => `|_k: &String, matcher: &mut Sub<T>| -> (b: bool) requires old(matcher).wf() ensures batched_rel(*old(matcher), *final(matcher), ids@), !b ==> final(matcher).cnt() == 0`
+    //@| closure `|_, matcher|`#1 => `|_k: &str, matcher: &mut Sub<T>| -> (b: bool) requires old(matcher).wf() ensures batched_rel(*old(matcher), *final(matcher), ids@), !b ==> final(matcher).cnt() == 0`
+    //@| entry broadcast use group_hash_axioms; broadcast use axiom_string_key_model;
+    //@|     proof { axiom_string_ext(); }
+    //@| exit proof { assert(entries_batched(old(self).regex_tree_rule.tmap(), self.regex_tree_rule.tmap(), ids@)); lemma_host_batched(*old(self), *self, ids@); }
+
+    //@@ fn src/router/request_matcher/host.rs :: impl <T>HostMatcher<T> / fn len -> r
+    //@| ensures r == self.cnt(),
+    //@@ fn src/router/request_matcher/host.rs :: impl <T>HostMatcher<T> / fn is_empty -> r
+    //@| ensures r == (self.cnt() == 0),
+}
+//@@ unrename IpMatcher
+
 //@@ strlits
 } // verus!
 fn main() {}
